@@ -315,6 +315,15 @@ func (im *Impl) checkResolveType(res *report.RuleResult) {
 		res.Bad("ResolveType", "-", "", "ResolveType not found")
 		return
 	}
+	// what ResolveType does is decided by evaluation when it can be evaluated (a loop that strips the nullable
+	// markers is as good as a recursive call); the shape of its type switch is read otherwise
+	if probs, ok := im.resolveTypeByEval(fd); ok {
+		for _, k := range []string{"Name", "NameRelative", "NameFullyQualified"} {
+			res.Check(probs[k] == "", "ResolveType/"+k, im.pos(fd), "ResolveType", k+" → ResolveName(n, \"\") (evaluated)", "ResolveType does not resolve "+k+" as a class-like name: "+probs[k])
+		}
+		res.Check(probs["Nullable"] == "", "ResolveType/Nullable", im.pos(fd), "ResolveType", "Nullable → the type it wraps, at any depth (evaluated)", "ResolveType does not unwrap nullable types: "+probs["Nullable"])
+		return
+	}
 	recv := im.recvObj(fd)
 	handled := map[string]string{}
 	ast.Inspect(fd.Body, func(nd ast.Node) bool {
